@@ -1839,8 +1839,9 @@ def drop_dead_copies(fn) -> int:
             break
         victim = None
         for st in _own_nodes(fn):
-            if not (isinstance(st, ast.Assign) and len(st.targets) == 1 and isinstance(st.targets[0], ast.Name) and is_new(st.targets[0].id)
-                    and (isinstance(st.value, (ast.Name, ast.Constant)) or _is_path(st.value))):
+            if not (isinstance(st, ast.Assign) and len(st.targets) == 1 and isinstance(st.targets[0], ast.Name)
+                    and (isinstance(st.value, (ast.Name, ast.Constant)) or _is_path(st.value))
+                    and (is_new(st.targets[0].id) or (isinstance(st.value, ast.Name) and is_new(st.value.id)))):
                 continue
             x = st.targets[0].id
             dn = cfg.node_of(st)
